@@ -242,6 +242,27 @@ impl Ctx {
             inject: self.inject,
         }
     }
+    /// EFAULT from a call whose arguments are all live objects of this harness can only mean that the
+    /// library handed the kernel a bad pointer: a violation, whatever the operation was doing.
+    fn check_efault(&mut self, out: &Out, op: &Op, scen: &str) {
+        if let Out::Err { errno: Some(14), msg } = out {
+            let was = self.intr;
+            self.intr = false;
+            self.evals += 1;
+            self.viol(
+                &format!("C14/{}/efault-from-valid-arguments", op.name()),
+                op,
+                &format!(
+                    "\"err\":{},\"rlimit_fsize\":{},\"signals_during\":{},\"scenario\":{}",
+                    vh::js(msg),
+                    self.fsize.map_or("null".to_string(), |l| l.to_string()),
+                    self.last_signals,
+                    vh::js(scen)
+                ),
+            );
+            self.intr = was;
+        }
+    }
     fn viol(&mut self, sig: &str, op: &Op, extra: &str) {
         let renamed;
         let sig = if self.intr {
@@ -455,6 +476,7 @@ fn run_op(cx: &mut Ctx, op: &Op, pre: Option<Snap>, scen: &str) -> Option<Snap> 
             let en = errno_name(*errno);
             cx.count(&format!("err/{opn}/{en}"), 1);
             cx.last = format!("err:{en}");
+            cx.check_efault(&out, op, scen);
             if m.is_ok() {
                 cx.count(&format!("err_where_model_expected_success/{opn}/{en}"), 1);
                 if std::env::var_os("C14_TRACE").is_some() {
@@ -1985,6 +2007,16 @@ fn mode_short(cx: &mut Ctx, budget: u64) {
                     run_op(cx, &op, None, &format!("short-write rlimit_fsize={l} payload={pl} {variant}"));
                     cx.fsize = None;
                     let out = cx.last.clone();
+                    // a copy that ended in Err with exactly `limit` bytes at the destination: the first
+                    // copy_file_range returned a partial count and a further call was made
+                    if matches!(op, Op::Copy { .. })
+                        && pl > l
+                        && !out.starts_with("held")
+                        && std::fs::metadata(osp(&dst)).map(|m| m.len() == l).unwrap_or(false)
+                    {
+                        cx.count("copy_calls_that_returned_partial", 1);
+                        cx.count(&format!("multi_call_copy_under_rlimit/{out}"), 1);
+                    }
                     cx.count(
                         &format!(
                             "short_write/{kind}/payload-{}-limit/{}",
@@ -2052,6 +2084,7 @@ fn mode_short(cx: &mut Ctx, budget: u64) {
                 println!("##B {}", op.json());
                 let (out, _) = exec(&op, 0, &Env::default());
                 println!("##E");
+                cx.check_efault(&out, &op, "short-read fifo");
                 let _ = writer.join();
                 let _ = std::fs::remove_file(osp(&name));
                 let chunk_cls = if chunks.iter().all(|c| *c < 64) {
@@ -2112,6 +2145,7 @@ fn mode_short(cx: &mut Ctx, budget: u64) {
                 println!("##B {}", op.json());
                 let (out, _) = exec(&op, 0, &Env::default());
                 println!("##E");
+                cx.check_efault(&out, &op, "short-read /proc");
                 // the observer reads again afterwards: only judge when the file was stable
                 let stable = std::fs::read(path).map(|w| w == want).unwrap_or(false);
                 match out {
@@ -2197,6 +2231,7 @@ fn main() {
         "rmall" => mode_rmall(&mut cx, a.budget),
         "short" => mode_short(&mut cx, a.budget),
         "sig" => disturb::mode_sig(&mut cx, a.budget),
+        "sigcopy" => disturb::mode_sigcopy(&mut cx, a.budget),
         "eintr" => disturb::mode_eintr(
             &mut cx,
             a.rest.iter().find_map(|x| x.strip_prefix("plan=")).map(str::to_string),
